@@ -1163,7 +1163,7 @@ Section RT.
     | S k' => match lookup e n with Some (DRecord incs fs) => flat_map (names k') incs ++ map f_name fs | _ => [] end
     end.
 
-  Definition slot := (bytes * (ty * value))%type.
+  Local Notation slot := (bytes * (ty * value))%type.
   Fixpoint own_slots (fs : list field) (vf : list (option value)) : list slot :=
     match fs, vf with
     | fd :: fs', ov :: vf' =>
@@ -1582,11 +1582,10 @@ Section RT.
   Lemma enc_le_mono fe tx d : enc_le fe tx d -> enc_le (S fe) tx d.
   Proof. intros (fe' & sc & Hle & He). exists fe', sc. split; [lia | exact He]. Qed.
 
-  Lemma enc_slots : forall k fe n v scope d, rec_closed k n -> typed (TRef n) v -> Enc fe scope (TRef n) v = Ok d ->
+  Lemma enc_slots : forall k fe n v scope d, rec_closed k n -> typed (TRef n) v -> Enc (S fe) scope (TRef n) v = Ok d ->
     exists ents L, d = DObj ents /\ Permutation ents L /\ Forall2 (entry_rel (enc_le fe)) (slots k n v) L.
   Proof.
     induction k as [|k IH]; intros fe n v scope d Hc Ht He; [destruct Hc|].
-    destruct fe as [|fe]; [rewrite enc_0 in He; discriminate|].
     cbn [rec_closed slots] in *.
     destruct (lookup e n) as [[incs fs|? ?]|] eqn:Hl; try contradiction.
     destruct (typed_rec_inv _ _ _ _ Ht Hl) as (vi & vf & -> & Hti & Htf).
@@ -1599,15 +1598,160 @@ Section RT.
       - injection Ea as <-. exists []. split; constructor.
       - fold (enc_incs_ fe scope) in Ea. inversion Hc as [|? ? Hci Hc']; subst.
         destruct (Enc fe scope (TRef i) iv) as [di| |] eqn:Ei; try discriminate. cbn [bind] in Ea.
-        destruct (IH fe i iv scope di Hci Hiv Ei) as (ents & L1 & -> & Hp1 & HF1). cbn [bind] in Ea.
-        destruct (enc_incs_ fe scope incs vi') as [b| |] eqn:Eb; try discriminate. cbn [bind] in Ea. injection Ea as <-.
+        destruct fe as [|fe']; [rewrite enc_0 in Ei; discriminate|].
+        destruct (IH fe' i iv scope di Hci Hiv Ei) as (ents & L1 & -> & Hp1 & HF1). cbn [bind] in Ea.
+        destruct (enc_incs_ (S fe') scope incs vi') as [b| |] eqn:Eb; try discriminate. cbn [bind] in Ea. injection Ea as <-.
         destruct (IHi Hc' vi' b Hvi' Eb) as (L2 & Hp2 & HF2).
-        exists (L1 ++ L2). split; [apply Permutation_app; assumption|]. cbn [inc_slots]. apply Forall2_app2; assumption. }
+        exists (L1 ++ L2). split; [apply Permutation_app; assumption|]. cbn [inc_slots]. apply Forall2_app2; [|assumption].
+        eapply Forall2_impl_in; [|exact HF1]. intros ? ? _ [Hk Hr]. split; [exact Hk | apply enc_le_mono, Hr]. }
     destruct Hinc as (L & Hp & HF). apply enc_fields_rel in Eo.
     exists (sort_entries (a ++ own)), (L ++ own). split; [reflexivity|]. split.
     - eapply perm_trans; [apply sort_entries_perm|]. apply Permutation_app_tail. exact Hp.
-    - apply Forall2_app2; (eapply Forall2_impl_in; [|eassumption]); intros ? ? _ [Hk Hr]; (split; [exact Hk | apply enc_le_mono, Hr]).
+    - apply Forall2_app2; assumption.
   Qed.
+
+  (* ---- sizes, types and required fields of the slots ---- *)
+  Lemma list_sum_cons a l : list_sum (a :: l) = a + list_sum l.
+  Proof. reflexivity. Qed.
+  Lemma own_slots_len fs : forall vf, length (own_slots fs vf) <= list_sum (map (osize vsize) vf).
+  Proof.
+    induction fs as [|fd fs IH]; intros vf; [simpl; lia|]. destruct vf as [|ov vf]; [simpl; lia|].
+    cbn [own_slots map]. rewrite list_sum_cons, app_length. specialize (IH vf). destruct ov; cbn [length osize]; lia.
+  Qed.
+  Lemma own_slots_vsize key ty x fs : forall vf, In (key, (ty, x)) (own_slots fs vf) -> S (vsize x) <= list_sum (map (osize vsize) vf).
+  Proof.
+    induction fs as [|fd fs IH]; intros vf H; [destruct H|]. destruct vf as [|ov vf]; [destruct H|].
+    cbn [own_slots map] in *. rewrite list_sum_cons. apply in_app_or in H as [H|H].
+    - destruct ov; [|destruct H]. destruct H as [H|[]]. injection H as _ _ ->. cbn [osize]. lia.
+    - specialize (IH vf H). lia.
+  Qed.
+
+  Lemma slots_len : forall k n v, length (slots k n v) + 2 <= vsize v \/ slots k n v = [].
+  Proof.
+    induction k as [|k IH]; intros n v; [right; reflexivity|]. cbn [slots].
+    destruct (lookup e n) as [[incs fs|? ?]|]; try (right; reflexivity). destruct v; try (right; reflexivity).
+    left. rewrite app_length. cbn [vsize]. pose proof (own_slots_len fs fields).
+    assert (length (inc_slots (slots k) incs incs0) <= list_sum (map (fun x => S (vsize x)) incs0)).
+    { clear H. revert incs0. induction incs as [|i incs IHi]; intros vi; [simpl; lia|]. destruct vi as [|iv vi]; [simpl; lia|].
+      cbn [inc_slots map]. rewrite list_sum_cons, app_length. specialize (IHi vi).
+      destruct (IH i iv) as [A|A]; [lia | rewrite A; cbn [length]; lia]. }
+    lia.
+  Qed.
+
+  Lemma slots_vsize key ty x : forall k n v, In (key, (ty, x)) (slots k n v) -> vsize x + 2 <= vsize v.
+  Proof.
+    induction k as [|k IH]; intros n v H; [destruct H|]. cbn [slots] in H.
+    destruct (lookup e n) as [[incs fs|? ?]|]; try destruct H. destruct v; try destruct H.
+    cbn [vsize]. apply in_app_or in H as [H|H].
+    - assert (vsize x + 2 <= list_sum (map (fun x => S (vsize x)) incs0)); [|lia].
+      revert incs0 H. induction incs as [|i incs IHi]; intros vi H; [destruct H|]. destruct vi as [|iv vi]; [destruct H|].
+      cbn [inc_slots map] in *. rewrite list_sum_cons. apply in_app_or in H as [H|H].
+      + specialize (IH _ _ H). lia.
+      + specialize (IHi _ H). lia.
+    - pose proof (own_slots_vsize _ _ _ _ _ H). lia.
+  Qed.
+
+  Lemma slots_typed key ty x : forall k n v, typed (TRef n) v -> In (key, (ty, x)) (slots k n v) ->
+    typed ty x /\ exists m incs fs fd, lookup e m = Some (DRecord incs fs) /\ In fd fs /\ f_ty fd = ty.
+  Proof.
+    induction k as [|k IH]; intros n v Ht H; [destruct H|]. cbn [slots] in H.
+    destruct (lookup e n) as [[incs fs|? ?]|] eqn:Hl; try destruct H.
+    destruct (typed_rec_inv _ _ _ _ Ht Hl) as (vi & vf & -> & Hti & Htf).
+    apply in_app_or in H as [H|H].
+    - clear Ht Hl Htf. induction Hti as [|i iv incs vi Hiv Hti IHi]; [destruct H|].
+      cbn [inc_slots] in H. apply in_app_or in H as [H|H]; [eapply IH; eassumption | apply IHi, H].
+    - assert (A : typed ty x /\ exists fd, In fd fs /\ f_ty fd = ty).
+      { clear Ht Hl Hti. induction Htf as [|fd ov fs vf Hov Htf IHf]; [destruct H|].
+        cbn [own_slots] in H. apply in_app_or in H as [H|H].
+        - destruct ov as [x1|]; [|destruct H]. destruct H as [H|[]]. injection H as _ <- <-.
+          split; [apply Hov; reflexivity|]. exists fd. split; [left; reflexivity | reflexivity].
+        - destruct (IHf H) as [A (fd' & B & C)]. split; [exact A|]. exists fd'. split; [right; exact B | exact C]. }
+      destruct A as [A (fd & B & C)]. split; [exact A|]. exists n, incs, fs, fd. auto.
+  Qed.
+
+  Lemma req_slots name : forall k n v, typed (TRef n) v -> In name (required_fields e k n) ->
+    exists ty x, In (name, (ty, x)) (slots k n v).
+  Proof.
+    induction k as [|k IH]; intros n v Ht H; [destruct H|]. cbn [required_fields slots] in *.
+    destruct (lookup e n) as [[incs fs|? ?]|] eqn:Hl; try destruct H.
+    destruct (typed_rec_inv _ _ _ _ Ht Hl) as (vi & vf & -> & Hti & Htf).
+    apply in_app_or in H as [H|H].
+    - assert (A : exists ty x, In (name, (ty, x)) (inc_slots (slots k) incs vi)).
+      { clear Ht Hl Htf. induction Hti as [|i iv incs vi Hiv Hti IHi]; [destruct H|].
+        cbn [flat_map] in H. cbn [inc_slots]. apply in_app_or in H as [H|H].
+        - destruct (IH _ _ Hiv H) as (ty & x & A). exists ty, x. apply in_or_app. left. exact A.
+        - destruct (IHi H) as (ty & x & A). exists ty, x. apply in_or_app. right. exact A. }
+      destruct A as (ty & x & A). exists ty, x. apply in_or_app. left. exact A.
+    - assert (A : exists ty x, In (name, (ty, x)) (own_slots fs vf)).
+      { clear Ht Hl Hti. induction Htf as [|fd ov fs vf Hov Htf IHf]; [destruct H|].
+        cbn [filter] in H. cbn [own_slots]. destruct (is_required (f_opt fd)) eqn:Er.
+        - destruct H as [H|H].
+          + destruct ov as [x|]; [|destruct Hov as [_ Hn]; rewrite (Hn eq_refl) in Er; discriminate].
+            exists (f_ty fd), x. apply in_or_app. left. left. rewrite H. reflexivity.
+          + destruct (IHf H) as (ty & x & A). exists ty, x. apply in_or_app. right. exact A.
+        - destruct (IHf H) as (ty & x & A). exists ty, x. apply in_or_app. right. exact A. }
+      destruct A as (ty & x & A). exists ty, x. apply in_or_app. right. exact A.
+  Qed.
+
+  Lemma remove_bytes_in y k l : In y (remove_bytes k l) -> In y l /\ y <> k.
+  Proof.
+    induction l as [|x l IH]; intros H; [destruct H|]. simpl in H. destruct (bytes_eqb k x) eqn:E.
+    - destruct (IH H). split; [right; assumption | assumption].
+    - destruct H as [->|H]; [split; [left; reflexivity | apply bytes_eqb_neq in E; congruence]|].
+      destruct (IH H). split; [right; assumption | assumption].
+  Qed.
+  Lemma remove_all keys : forall rem, (forall y, In y rem -> In y keys) ->
+    fold_left (fun r key => remove_bytes key r) keys rem = [].
+  Proof.
+    assert (A : forall keys rem y, In y (fold_left (fun r key => remove_bytes key r) keys rem) -> In y rem /\ ~ In y keys).
+    { clear keys. induction keys as [|k keys IH]; intros rem y H; [split; [exact H | intros []]|].
+      cbn [fold_left] in H. destruct (IH _ _ H) as [B C]. apply remove_bytes_in in B as [B D].
+      split; [exact B|]. intros [->|E]; [congruence | contradiction]. }
+    intros rem H. destruct (fold_left _ keys rem) as [|y l] eqn:E; [reflexivity|].
+    destruct (A keys rem y) as [B C]; [rewrite E; left; reflexivity|]. exfalso. apply C, H, B.
+  Qed.
+
+  Lemma done_in_true done key : In key done -> done_in done key = true.
+  Proof. intros H. unfold done_in. apply existsb_exists. exists key. split; [exact H | apply bytes_eqb_refl]. Qed.
+
+  (* ---- the record loop ---- *)
+  Section RecLoop.
+    Variables (f K n : nat) (zv tv : value).
+    Hypothesis Hc : rec_closed K n.
+    Hypothesis Hz : zok K n zv.
+    Hypothesis Ht : typed (TRef n) tv.
+    Hypothesis Hnd : NoDup (names K n).
+
+    Definition slot_ok (tx : ty * value) (d : doc) : Prop := elem_ok (Dec f (fst tx)) (expect (snd tx) f (fst tx)) d.
+
+    Lemma rec_loop_ok : forall sl ents, Forall2 (entry_rel slot_ok) sl ents ->
+      (forall key ty x, In (key, (ty, x)) sl -> In (key, (ty, x)) (slots K n tv)) ->
+      forall kk done rv0 rem tr rest, length ents < kk -> rv0 = merge f done K n zv tv ->
+      rec_loop (umf_ (Dec f) K n) kk rv0 rem (cur true (join_bytes [x2c] (map entR ents) ++ x29 :: rest) tr)
+      = Ok (merge f (rev (map fst sl) ++ done) K n zv tv, fold_left (fun r key => remove_bytes key r) (map fst sl) rem,
+            cur true rest tr).
+    Proof.
+      induction 1 as [|[key [ty x]] [kd d] sl ents [Hk Hx] HF IH]; intros Hsub kk done rv0 rem tr rest Hlen ->.
+      - destruct kk as [|k]; [lia|]. cbn [map join_bytes app rev fold_left]. rewrite rec_loop_S.
+        unfold check_not_at_end, idx. rewrite r_rest_cur. cbn [bind]. rewrite advance1_cur. reflexivity.
+      - destruct kk as [|k]; [lia|]. cbn [fst snd] in Hk, Hx. subst kd. unfold slot_ok in Hx. cbn [fst snd] in Hx.
+        assert (Hin : In (key, (ty, x)) (slots K n tv)) by (apply Hsub; left; reflexivity).
+        assert (Hsub' : forall key ty x, In (key, (ty, x)) sl -> In (key, (ty, x)) (slots K n tv)).
+        { intros. apply Hsub. right. assumption. }
+        destruct ents as [|e2 ents].
+        + inversion HF; subst. cbn [map join_bytes entR]. rewrite <- !app_assoc. cbn [app].
+          rewrite rec_loop_step.
+          rewrite (umf_found (Dec f) f done key _ ty x _ (Hx _ _ (ds_close rest)) K n zv tv Hc Hz Ht Hnd Hin).
+          cbn [bind]. rewrite r_tr_cur, with_tr_cur, pop_push, read_after_close. cbn [bind]. reflexivity.
+        + cbn [map]. rewrite join_cons2. cbn [entR]. rewrite <- !app_assoc. cbn [app].
+          rewrite rec_loop_step.
+          rewrite (umf_found (Dec f) f done key _ ty x _ (Hx _ _ (ds_comma _)) K n zv tv Hc Hz Ht Hnd Hin).
+          cbn [bind]. rewrite r_tr_cur, with_tr_cur, pop_push, read_after_comma. cbn [bind].
+          change (entR e2 :: map entR ents) with (map entR (e2 :: ents)).
+          rewrite (IH Hsub' k (key :: done) _ (remove_bytes key rem) tr rest ltac:(simpl in *; lia) eq_refl).
+          cbn [map fst rev fold_left]. rewrite <- app_assoc. reflexivity.
+    Qed.
+  End RecLoop.
   Section Cases.
     Variable Pt : ty -> Prop.
     Hypothesis Pt_arr : forall t, Pt (TArray t) -> Pt t.
@@ -1768,6 +1912,57 @@ Section RT.
         cbn [bind]. rewrite r_tr_cur, with_tr_cur, pop_push, read_after_close. cbn [bind].
         rewrite andb_false_r. rewrite (expect_union_set (S k) ms j (alias, mt) x Hn). reflexivity.
     Qed.
+
+    (* ---- records ---- *)
+    Definition RTs (fe : nat) : Prop := forall fe', fe' <= fe -> RT fe'.
+    Hypothesis Pt_rec : forall m incs fs, lookup e m = Some (DRecord incs fs) -> Forall (fun fd => Pt (f_ty fd)) fs.
+    Hypothesis env_rec : forall n incs fs, lookup e n = Some (DRecord incs fs) ->
+      rec_closed (S (length e)) n /\ NoDup (names (S (length e)) n).
+    Hypothesis Mt_rec : forall c tr, Mt c tr -> c = true \/ t_missing tr = [].
+
+    Lemma case_rec fe scope n vi vf d : RTs fe -> typed (TRef n) (VRec vi vf) ->
+      Enc (S fe) scope (TRef n) (VRec vi vf) = Ok d ->
+      forall fd c tr rest, vsize (VRec vi vf) <= fd -> Mt c tr ->
+      Dec fd (TRef n) (cur c (R d ++ rest) tr) = Ok (expect (VRec vi vf) fd (TRef n), cur true rest tr).
+    Proof.
+      intros HRT Ht He fd c tr rest Hs Hm.
+      inversion Ht as [| | | | | | | | | | |? incs fs ? ? Hl Hti Htf|]; subst.
+      destruct fd as [|f]; [simpl in Hs; lia|].
+      destruct (env_rec _ _ _ Hl) as [Hc Hnd]. remember (S (length e)) as K eqn:EK.
+      destruct (enc_slots K fe n _ scope d Hc Ht He) as (ents & L & -> & Hp & HF).
+      destruct (Forall2_perm _ _ _ (Permutation_sym Hp) _ HF) as (sl & Hps & HFs).
+      assert (Hsub : forall key ty x, In (key, (ty, x)) sl -> In (key, (ty, x)) (slots K n (VRec vi vf))).
+      { intros. eapply Permutation_in; [apply Permutation_sym, Hps | assumption]. }
+      assert (Hlen : length ents < f).
+      { rewrite <- (Forall2_len _ _ _ HFs), <- (Permutation_length Hps). cbn [vsize] in Hs.
+        destruct (slots_len K n (VRec vi vf)) as [A|A]; [cbn [vsize] in A; lia | rewrite A; cbn [length]; lia]. }
+      assert (Hok : Forall2 (entry_rel (slot_ok f)) sl ents).
+      { eapply Forall2_impl_in; [|exact HFs]. intros [key [ty x]] [kd dd] Hin [Hk (fe' & sc & Hle & Hee)]. cbn [fst snd] in *.
+        split; [exact Hk|]. unfold slot_ok; cbn [fst snd]. apply Hsub in Hin.
+        destruct (slots_typed _ _ _ K n _ Ht Hin) as [Htx (m & mi & mf & fd0 & Hlm & Hfd & Hty)].
+        assert (Hpt : Pt ty). { subst ty. pose proof (Pt_rec _ _ _ Hlm) as A. rewrite Forall_forall in A. apply A, Hfd. }
+        pose proof (slots_vsize _ _ _ K n _ Hin) as Hsz.
+        apply (RT_elem fe'); [apply HRT, Hle | exact Hpt | exact Htx | exists sc; exact Hee | lia]. }
+      assert (Hz : zok K n (zero_value e (S K) (TRef n))) by (apply zero_value_zok; [lia | exact Hc]).
+      rewrite (decR_rec f n incs fs _ Hl). unfold rec_rhs. rewrite render_obj. cbn [app].
+      match goal with |- context [at_map ?s] => replace (at_map s) with true by reflexivity end. cbn [negb].
+      rewrite <- app_assoc. change ([x29] ++ rest) with (x29 :: rest). rewrite advance_open. rewrite <- EK.
+      rewrite (rec_loop_ok f K n _ (VRec vi vf) Hc Hz Ht Hnd sl ents Hok Hsub f [] _ _ tr rest Hlen
+                 (eq_sym (merge_nil f K n _ _ Hc Hz Ht))).
+      cbn [bind]. rewrite r_tr_cur, with_tr_cur.
+      rewrite remove_all.
+      2:{ intros y Hy. destruct (req_slots y K n _ Ht Hy) as (ty & x & Hin).
+          apply (Permutation_in _ Hps) in Hin. apply (in_map fst) in Hin. exact Hin. }
+      rewrite record_missing_nil. cbv zeta.
+      rewrite (merge_all f _ K n _ _ Hc Hz Ht).
+      2:{ intros key ty x Hin. apply done_in_true. rewrite app_nil_r. apply -> in_rev.
+          apply (Permutation_in _ Hps) in Hin. apply (in_map fst) in Hin. exact Hin. }
+      rewrite (expect_body_rec f n incs fs vi vf Hl), (expect_rec f n incs fs vi vf Hl).
+      cbn [r_consumed cur].
+      assert (Hr : negb c && negb qr && negb (match t_missing tr with [] => true | _ :: _ => false end) = false).
+      { destruct (Mt_rec _ _ Hm) as [-> | Hmiss]; [reflexivity | rewrite Hmiss; apply andb_false_r]. }
+      rewrite Hr. cbn [orb]. destruct (own_has_default fs); reflexivity.
+    Qed.
   End Cases.
 
 
@@ -1827,4 +2022,309 @@ Section RT.
     exact (rt3 fe scope t v d (conj Hw Hn) Ht He fd c tr rest Hs Hc I).
   Qed.
 
+
+  (* ---- L4: all types ---- *)
+  (* schema well-formedness: includes are acyclic (nesting depth at most the number of definitions), the field names of a
+     record and its includes are pairwise distinct, union aliases are distinct, enum symbols are distinct *)
+  Definition wf_env : Prop :=
+    (forall n incs fs, lookup e n = Some (DRecord incs fs) ->
+       rec_closed (S (length e)) n /\ NoDup (names (S (length e)) n) /\ Forall (fun fd => wf_ty (f_ty fd)) fs) /\
+    (forall n nullable ms, lookup e n = Some (DUnion nullable ms) ->
+       NoDup (map fst ms) /\ Forall (fun m => wf_ty (snd m)) ms).
+  (* at position 0 (the top-level value) the reader's missing-field list is still empty *)
+  Definition Mt4 (c : bool) (tr : tracker) : Prop := c = true \/ t_missing tr = [].
+
+  Theorem rt4 : wf_env -> forall fe, RTs wf_ty Mt4 fe.
+  Proof.
+    intros [Hwr Hwu].
+    assert (HMt : forall tr, Mt4 true tr) by (intros; left; reflexivity).
+    assert (HPr : forall m incs fs, lookup e m = Some (DRecord incs fs) -> Forall (fun fd => wf_ty (f_ty fd)) fs).
+    { intros m incs fs Hl. apply (Hwr _ _ _ Hl). }
+    assert (HEr : forall n incs fs, lookup e n = Some (DRecord incs fs) ->
+                  rec_closed (S (length e)) n /\ NoDup (names (S (length e)) n)).
+    { intros n incs fs Hl. destruct (Hwr _ _ _ Hl) as (A & B & _). auto. }
+    assert (HPu : forall n nullable ms, wf_ty (TRef n) -> lookup e n = Some (DUnion nullable ms) ->
+                  NoDup (map fst ms) /\ Forall (fun m => wf_ty (snd m)) ms).
+    { intros n nullable ms _ Hl. apply (Hwu _ _ _ Hl). }
+    induction fe as [|fe IH]; intros fe' Hle.
+    - replace fe' with 0 by lia. intros scope t v d Hp Ht He. rewrite enc_0 in He. discriminate.
+    - destruct (Nat.eq_dec fe' (S fe)) as [->|Hne]; [|apply IH; lia].
+      intros scope t v d Hp Ht He fd c tr rest Hs Hc Hm.
+      destruct t as [p|syms|n|n|t'|t'].
+      + eapply case_prim; eassumption.
+      + eapply (case_enum wf_ty (fun syms H => H)); eassumption.
+      + eapply case_fixed; eassumption.
+      + inversion Ht; subst.
+        * eapply (case_rec wf_ty Mt4 HMt HPr HEr (fun c tr H => H)); eassumption.
+        * eapply (case_union wf_ty Mt4 HMt HPu); try eassumption. apply IH. lia.
+      + eapply (case_arr wf_ty (fun t H => H) Mt4 HMt); try eassumption. apply IH. lia.
+      + eapply (case_map wf_ty (fun t H => H) Mt4 HMt); try eassumption. apply IH. lia.
+  Qed.
+
+  (* L4, final form *)
+  Theorem ror2_roundtrip fe scope t v d fd c tr rest :
+    wf_env -> wf_ty t -> typed t v -> Enc fe scope t v = Ok d -> vsize v <= fd -> ctx d c rest ->
+    (c = true \/ t_missing tr = []) ->
+    Dec fd t (cur c (R d ++ rest) tr) = Ok (expect v fd t, cur true rest tr).
+  Proof.
+    intros Hw Hwt Ht He Hs Hc Hm. exact (rt4 Hw fe fe (le_n _) scope t v d Hwt Ht He fd c tr rest Hs Hc Hm).
+  Qed.
+
+
+  (* ---- the top-level wrapper decode_ror2: the parenthesis pre-check accepts every rendering ---- *)
+  Lemma doc_ind' (P : doc -> Prop) :
+    (forall l, P (DLeaf l)) -> (forall ds, Forall P ds -> P (DArr ds)) ->
+    (forall ents, Forall (fun kd => P (snd kd)) ents -> P (DObj ents)) -> forall d, P d.
+  Proof.
+    intros Hl Ha Ho. fix IH 1. intros [l|ds|ents].
+    - apply Hl.
+    - apply Ha. induction ds as [|d r IHr]; constructor; [apply IH | exact IHr].
+    - apply Ho. induction ents as [|[k d] r IHr]; constructor; [apply IH | exact IHr].
+  Qed.
+
+  Lemma validate_tok k tok rest : tokfree4 tok -> validate_ror2 k (tok ++ rest) = validate_ror2 k rest.
+  Proof.
+    induction tok as [|c tok IH]; intros Hf; [reflexivity|]. apply tokfree4_cons in Hf as [Hf Hc].
+    cbn [app validate_ror2]. rewrite (Hc x28), (Hc x29) by (simpl; tauto). apply IH, Hf.
+  Qed.
+  Lemma validate_prefix k m : validate_ror2 k (v2_list_prefix ++ m) = validate_ror2 (S k) m.
+  Proof. reflexivity. Qed.
+
+  Definition val_ok (d : doc) : Prop := forall k rest, validate_ror2 k (R d ++ rest) = validate_ror2 k rest.
+
+  Lemma validate_render : forall d, val_ok d.
+  Proof.
+    apply doc_ind'.
+    - intros l k rest. cbn [render_ror2]. apply validate_tok, leaf_tok.
+    - intros ds HF k rest. rewrite render_arr, <- !app_assoc, validate_prefix. cbn [app].
+      induction HF as [|d ds Hd HF IH]; [reflexivity|].
+      destruct ds as [|d2 ds].
+      + cbn [map join_bytes]. rewrite Hd. reflexivity.
+      + cbn [map]. rewrite join_cons2, <- !app_assoc, Hd. cbn [app]. exact IH.
+    - intros ents HF k rest. rewrite render_obj, <- !app_assoc. cbn [app].
+      change (validate_ror2 k (x28 :: join_bytes [x2c] (map entR ents) ++ x29 :: rest)) with
+        (validate_ror2 (S k) (join_bytes [x2c] (map entR ents) ++ x29 :: rest)).
+      induction HF as [|[key d] ents Hd HF IH]; [reflexivity|]. cbn [snd] in Hd.
+      destruct ents as [|e2 ents].
+      + cbn [map join_bytes entR]. rewrite <- !app_assoc, (validate_tok _ _ _ (rstr_free4 fl key)). cbn [app].
+        change (validate_ror2 (S k) (x3a :: R d ++ x29 :: rest)) with (validate_ror2 (S k) (R d ++ x29 :: rest)).
+        rewrite Hd. reflexivity.
+      + cbn [map]. rewrite join_cons2. cbn [entR]. rewrite <- !app_assoc, (validate_tok _ _ _ (rstr_free4 fl key)). cbn [app].
+        match goal with |- validate_ror2 _ (x3a :: ?m) = _ => change (validate_ror2 (S k) (x3a :: m)) with (validate_ror2 (S k) m) end.
+        rewrite Hd. exact IH.
+  Qed.
+
+  Theorem decode_ror2_roundtrip fe scope t v d fd (qp : option bytes) :
+    wf_env -> wf_ty t -> typed t v -> Enc fe scope t v = Ok d -> vsize v <= fd ->
+    decode_ror2 e wc ps_empty ignore parseF (unesc fl) v2_empty_string v2_list_prefix qr fd qp t (R d) = DOk (expect v fd t).
+  Proof.
+    intros Hw Hwt Ht He Hs. unfold decode_ror2.
+    pose proof (validate_render d 0 []) as Hv. rewrite app_nil_r in Hv. rewrite Hv. cbn [validate_ror2 negb].
+    set (tr := match qp with Some p => {| t_scope := [SKey p]; t_missing := [] |} | None => tracker0 end).
+    assert (Hm : t_missing tr = []) by (destruct qp; reflexivity).
+    assert (Hc : ctx d false []) by (destruct d; simpl; auto).
+    pose proof (ror2_roundtrip fe scope t v d fd false tr [] Hw Hwt Ht He Hs Hc (or_intror Hm)) as E.
+    rewrite app_nil_r in E. unfold rinit. fold (cur false (R d) tr). rewrite E. unfold finish. rewrite r_tr_cur, Hm. reflexivity.
+  Qed.
+
+
+  (* ---- characterisation of the expected value ---- *)
+  (* default filling: a set slot is kept; an unset slot with a schema default gets the decoded literal *)
+  Lemma fill_spec f : forall fs vs j fd ov, nth_error fs j = Some fd -> nth_error vs j = Some ov ->
+    nth_error (fill_ f fs vs) j =
+    Some (match ov, f_opt fd with None, Default lit => lit_value_ f (f_ty fd) lit | _, _ => ov end).
+  Proof.
+    induction fs as [|fd0 fs IH]; intros vs j fd ov Hf Hv; [destruct j; discriminate|].
+    destruct vs as [|ov0 vs]; [destruct j; discriminate|]. destruct j as [|j]; cbn [fill_ nth_error] in *.
+    - injection Hf as <-. injection Hv as <-. reflexivity.
+    - apply IH; assumption.
+  Qed.
+  Lemma fill_length f : forall fs vs, length (fill_ f fs vs) = length vs.
+  Proof. induction fs as [|fd fs IH]; intros [|ov vs]; cbn [fill_ length]; try reflexivity. rewrite IH. reflexivity. Qed.
+
+  Lemma expect_rec' fd n incs fs ti tf : lookup e n = Some (DRecord incs fs) ->
+    expect (VRec ti tf) fd (TRef n) =
+    VRec (eb_incs (pred fd) incs ti)
+         (if own_has_default fs then fill_ (pred fd) fs (eb_flds (pred fd) fs tf) else eb_flds (pred fd) fs tf).
+  Proof. intros H. cbn [expect]. rewrite H. reflexivity. Qed.
+  Lemma expect_union' vs fd n nullable ms : lookup e n = Some (DUnion nullable ms) ->
+    expect (VUnion vs) fd (TRef n) = VUnion (expect_union_go (pred fd) ms vs).
+  Proof. intros H. cbn [expect]. rewrite H. reflexivity. Qed.
+
+  (* with no schema defaults the expected value is the canonical form of the original value *)
+  Definition no_defaults : Prop := forall n incs fs, lookup e n = Some (DRecord incs fs) -> own_has_default fs = false.
+
+  Lemma rec_closed_inc k n incs fs i : rec_closed k n -> lookup e n = Some (DRecord incs fs) -> In i incs ->
+    exists k', k = S (S k') /\ exists incs' fs', lookup e i = Some (DRecord incs' fs').
+  Proof.
+    intros Hc Hl Hi. destruct k as [|k]; [destruct Hc|]. cbn [rec_closed] in Hc. rewrite Hl in Hc.
+    rewrite Forall_forall in Hc. specialize (Hc i Hi). destruct k as [|k]; [destruct Hc|]. exists k. split; [reflexivity|].
+    cbn [rec_closed] in Hc. destruct (lookup e i) as [[incs' fs'|? ?]|]; try contradiction. eauto.
+  Qed.
+
+  Lemma expect_canon_nodef : wf_env -> no_defaults -> forall m v, vsize v <= m ->
+    (forall n f vi vf, v = VRec vi vf -> typed (TRef n) v -> expect_body v f n = canon v) /\
+    (forall t fd, typed t v -> expect v fd t = canon v).
+  Proof.
+    intros [Hwr _] Hnd. induction m as [|m IH]; intros v Hs; [pose proof (vsize_pos v); lia|].
+    assert (Hflds : forall f fs vf, Forall2 fld_typed fs vf -> list_sum (map (osize vsize) vf) <= m ->
+                    eb_flds f fs vf = map (option_map canon) vf).
+    { intros f fs vf HF. induction HF as [|fd ov fs vf Hov HF IHf]; intros Hsz; [reflexivity|].
+      cbn [map] in Hsz. rewrite list_sum_cons in Hsz. cbn [eb_flds map]. f_equal; [|apply IHf; lia].
+      destruct ov as [x|]; [|reflexivity]. cbn [option_map osize] in *. f_equal.
+      apply (IH x ltac:(lia)). apply Hov. reflexivity. }
+    assert (Hincs : forall f n incs fs vi, lookup e n = Some (DRecord incs fs) ->
+                    Forall2 (fun i iv => typed (TRef i) iv) incs vi -> list_sum (map (fun x => S (vsize x)) vi) <= m ->
+                    eb_incs f incs vi = map canon vi).
+    { intros f n incs fs vi Hl HF.
+      assert (Hrec : forall i, In i incs -> exists incs' fs', lookup e i = Some (DRecord incs' fs')).
+      { intros i Hi. destruct (Hwr _ _ _ Hl) as (Hc & _). destruct (rec_closed_inc _ _ _ _ i Hc Hl Hi) as (_ & _ & A). exact A. }
+      clear Hl. induction HF as [|i iv incs vi Hiv HF IHi]; intros Hsz; [reflexivity|].
+      cbn [map] in Hsz. rewrite list_sum_cons in Hsz. cbn [eb_incs map]. f_equal.
+      - destruct (Hrec i (or_introl eq_refl)) as (incs' & fs' & Hli).
+        destruct (typed_rec_inv _ _ _ _ Hiv Hli) as (vi' & vf' & E & _). 
+        apply (proj1 (IH iv ltac:(lia)) i f vi' vf' E Hiv).
+      - apply IHi; [intros; apply Hrec; right; assumption | lia]. }
+    assert (Hbody : forall n f vi vf, v = VRec vi vf -> typed (TRef n) v -> expect_body v f n = canon v).
+    { intros n f vi vf -> Ht. inversion Ht as [| | | | | | | | | | |? incs fs ? ? Hl Hti Htf|]; subst.
+      cbn [vsize] in Hs. rewrite (expect_body_rec f n incs fs vi vf Hl). cbn [canon]. f_equal.
+      - apply (Hincs f n incs fs vi Hl Hti). lia.
+      - apply Hflds; [exact Htf | lia]. }
+    split; [exact Hbody|].
+    intros t fd Ht. inversion Ht as [| | | | | | | | |? l Hall|? es Hnd' Hall|? incs fs vi vf Hl Hti Htf|? nullable ms vs Hl HF];
+      subst; try reflexivity.
+    - rewrite expect_arr'. cbn [canon]. f_equal. apply map_ext_in. intros a Ha. cbn [vsize] in Hs.
+      pose proof (list_sum_in (fun x => S (vsize x)) l a Ha). cbv beta in *.
+      apply (IH a ltac:(lia)). rewrite Forall_forall in Hall. apply Hall, Ha.
+    - rewrite expect_map', canon_map. do 2 f_equal. apply map_ext_in. intros [k a] Ha. cbn [map_val]. f_equal.
+      cbn [vsize] in Hs. pose proof (list_sum_in (fun kv : bytes * value => let '(_, x) := kv in S (vsize x)) es (k, a) Ha) as A.
+      cbv beta iota in A. apply (IH a ltac:(lia)). rewrite Forall_forall in Hall. apply (Hall _ Ha).
+    - rewrite (expect_rec' fd n incs fs vi vf Hl), (Hnd _ _ _ Hl). cbn [vsize] in Hs. cbn [canon]. f_equal.
+      + apply (Hincs _ n incs fs vi Hl Hti). lia.
+      + apply Hflds; [exact Htf | lia].
+    - rewrite (expect_union' vs fd n nullable ms Hl). cbn [canon]. f_equal. cbn [vsize] in Hs.
+      assert (Hsz : list_sum (map (osize vsize) vs) <= m) by lia. clear Hs Ht Hl Hbody.
+      induction HF as [|mm ov ms vs Hov HF IHu]; [reflexivity|].
+      cbn [map] in Hsz. rewrite list_sum_cons in Hsz. cbn [expect_union_go map]. f_equal; [|apply IHu; lia].
+      destruct ov as [x|]; [|reflexivity]. cbn [option_map osize] in *. f_equal. apply (IH x ltac:(lia)). apply Hov. reflexivity.
+  Qed.
+
+  Theorem expect_is_canon t v fd : wf_env -> no_defaults -> typed t v -> expect v fd t = canon v.
+  Proof. intros Hw Hn Ht. exact (proj2 (expect_canon_nodef Hw Hn (vsize v) v (le_n _)) t fd Ht). Qed.
 End RT.
+
+(* ======================================================================================================
+   Final forms (the strconv facts bundled as one premise)
+   ====================================================================================================== *)
+Definition float_oracle_ok (fmtF : bool -> N -> bytes) (parseF : nat -> bytes -> option N) : Prop :=
+  (forall is32 b, fmtF is32 b <> []) /\
+  (forall b, (b < 2 ^ 64)%N -> classify_float false b <> FNaN -> parseF 0 (float_text fmtF false b) = Some b) /\
+  (forall b, (b < 2 ^ 32)%N -> classify_float true b <> FNaN -> parseF 1 (float_text fmtF true b) = Some b).
+
+Local Notation render fmtF fl := (render_ror2 fmtF v2_hex_chars v2_unescaped_path_chars v2_unescaped_query_chars
+                                    v2_header_escaped_chars v2_empty_string v2_list_prefix fl).
+
+Theorem L2_primitive fmtF parseF e fl p v c rest tr :
+  float_oracle_ok fmtF parseF -> typed e (TPrim p) v -> tok_ctx c rest ->
+  rprim parseF (unescape (plus_of fl)) v2_empty_string p
+    (cur c (ror2_leaf fmtF v2_hex_chars v2_unescaped_path_chars v2_unescaped_query_chars v2_header_escaped_chars
+              v2_empty_string fl (prim_leaf v) ++ rest) tr)
+  = Ok (v, cur true rest tr).
+Proof. intros (A & B & C). apply rprim_ok; assumption. Qed.
+
+Theorem L3_noref fmtF parseF e wc ignore fl qr fe scope t v d fd c tr rest :
+  float_oracle_ok fmtF parseF ->
+  wf_ty t -> noref t -> typed e t v -> enc e wc ps_empty fe scope t v = Ok d -> vsize v <= fd -> ctx d c rest ->
+  decR e wc ps_empty ignore parseF (unescape (plus_of fl)) v2_empty_string v2_list_prefix qr fd t
+    (cur c (render fmtF fl d ++ rest) tr)
+  = Ok (canon v, cur true rest tr).
+Proof. intros (A & B & C). apply ror2_roundtrip_noref; assumption. Qed.
+
+Theorem L4_all fmtF parseF e wc ignore fl qr fe scope t v d fd c tr rest :
+  float_oracle_ok fmtF parseF ->
+  wf_env e -> wf_ty t -> typed e t v -> enc e wc ps_empty fe scope t v = Ok d -> vsize v <= fd -> ctx d c rest ->
+  (c = true \/ t_missing tr = []) ->
+  decR e wc ps_empty ignore parseF (unescape (plus_of fl)) v2_empty_string v2_list_prefix qr fd t
+    (cur c (render fmtF fl d ++ rest) tr)
+  = Ok (expect parseF e wc ignore v fd t, cur true rest tr).
+Proof. intros (A & B & C). apply ror2_roundtrip; assumption. Qed.
+
+Theorem L4_toplevel fmtF parseF e wc ignore fl qr fe scope t v d fd qp :
+  float_oracle_ok fmtF parseF ->
+  wf_env e -> wf_ty t -> typed e t v -> enc e wc ps_empty fe scope t v = Ok d -> vsize v <= fd ->
+  decode_ror2 e wc ps_empty ignore parseF (unescape (plus_of fl)) v2_empty_string v2_list_prefix qr fd qp t (render fmtF fl d)
+  = DOk (expect parseF e wc ignore v fd t).
+Proof. intros (A & B & C). apply decode_ror2_roundtrip; assumption. Qed.
+
+Theorem L4_toplevel_nodefaults fmtF parseF e wc ignore fl qr fe scope t v d fd qp :
+  float_oracle_ok fmtF parseF ->
+  wf_env e -> no_defaults e -> wf_ty t -> typed e t v -> enc e wc ps_empty fe scope t v = Ok d -> vsize v <= fd ->
+  decode_ror2 e wc ps_empty ignore parseF (unescape (plus_of fl)) v2_empty_string v2_list_prefix qr fd qp t (render fmtF fl d)
+  = DOk (canon v).
+Proof.
+  intros Hf Hw Hn Hwt Ht He Hs. rewrite <- (expect_is_canon parseF e wc ignore t v fd Hw Hn Ht).
+  eapply L4_toplevel; eassumption.
+Qed.
+
+(* ======================================================================================================
+   Non-vacuity: a schema with an included record, an optional map field, a default, an array of unions, and a value of it
+   (the premises hold; the conclusion of the top-level theorem is checked by computation, default 42 filled in)
+   ====================================================================================================== *)
+Definition fa := {| f_name := [x61]; f_ty := TPrim PInt; f_opt := Required |}.
+Definition fb := {| f_name := [x62]; f_ty := TMap (TPrim PString); f_opt := Optional |}.
+Definition fd_ := {| f_name := [x64]; f_ty := TPrim PInt; f_opt := Default [x34; x32] |}.
+Definition fc := {| f_name := [x63]; f_ty := TArray (TRef 1); f_opt := Required |}.
+Definition ex_env : env :=
+  [ DRecord [] [fa; fb]; DUnion false [([x78], TPrim PLong); ([x79], TRef 0)]; DRecord [0] [fc; fd_] ].
+Definition ex_v : value :=
+  VRec [VRec [] [Some (VInt 5); Some (VMap [([x6b; x32], VStr []); ([x6b; x31], VStr [x28; x20])])]]
+       [Some (VArr [VUnion [Some (VLong 7); None]; VUnion [None; Some (VRec [] [Some (VInt (-1)); None])]]); None].
+Definition fmt0 (is32 : bool) (b : N) : bytes := [x30].
+Definition prs0 (m : nat) (s : bytes) : option N := None.
+Ltac ty_tac :=
+  repeat first
+    [ reflexivity | discriminate
+    | match goal with
+      | |- forall x, Some _ = Some x -> _ => let E := fresh in intros ? E; injection E as <-
+      | |- forall x, None = Some x -> _ => let E := fresh in intros ? E; discriminate E
+      | |- typed _ (TRef _) (VRec _ _) => eapply T_rec; [reflexivity| |]
+      | |- typed _ (TRef _) (VUnion _) => eapply T_union; [reflexivity|]
+      | |- ~ In _ _ => simpl; intuition discriminate
+      | |- _ /\ _ => split
+      | |- _ -> _ => intro
+      end
+    | progress cbn [snd f_ty f_opt is_required map fst]
+    | constructor ].
+Lemma ex_typed : typed ex_env (TRef 2) ex_v.
+Proof. unfold ex_v. ty_tac. Qed.
+Lemma ex_wf : wf_env ex_env.
+Proof.
+  split.
+  - intros n incs fs H. destruct n as [|[|[|n]]]; cbn in H; try discriminate; try (destruct n; discriminate); injection H as <- <-.
+    + split; [cbn; constructor|]. split; [cbn; repeat constructor; simpl; intuition discriminate|]. repeat constructor.
+    + split; [cbn; repeat constructor|]. split; [cbn; repeat constructor; simpl; intuition discriminate|]. repeat constructor.
+  - intros n nullable ms H. destruct n as [|[|[|n]]]; cbn in H; try discriminate; try (destruct n; discriminate).
+    injection H as <- <-. split; [cbn; repeat constructor; simpl; intuition discriminate|]. repeat constructor.
+Qed.
+Lemma ex_nonvacuous :
+  wf_env ex_env /\ wf_ty (TRef 2) /\ typed ex_env (TRef 2) ex_v /\
+  exists d, enc ex_env v2_wildcard ps_empty 10 [] (TRef 2) ex_v = Ok d /\
+            decode_ror2 ex_env v2_wildcard ps_empty 0 prs0 (unescape false) v2_empty_string v2_list_prefix false 30 None (TRef 2)
+              (render_ror2 fmt0 v2_hex_chars v2_unescaped_path_chars v2_unescaped_query_chars
+                                    v2_header_escaped_chars v2_empty_string v2_list_prefix FPath d)
+            = DOk (expect prs0 ex_env v2_wildcard 0 ex_v 30 (TRef 2)).
+Proof.
+  split; [exact ex_wf|]. split; [exact I|]. split; [exact ex_typed|]. eexists. split; [vm_compute; reflexivity|]. vm_compute. reflexivity.
+Qed.
+
+(* Observation made precise by [expect] (eb_incs applies expect_body, which does not fill defaults): the default of a field
+   declared in an INCLUDED record is not populated when the field is absent - only the own fields of the record being
+   decoded are; decoding the included record on its own does populate it.  Input "(a:1)": *)
+Definition fe_ := {| f_name := [x65]; f_ty := TPrim PInt; f_opt := Default [x37] |}.
+Definition env_incdef : env := [ DRecord [] [fd_; fa]; DRecord [0] [fe_] ].
+Example include_default_not_filled :
+  decode_ror2 env_incdef v2_wildcard ps_empty 0 prs0 (unescape false) v2_empty_string v2_list_prefix false 30 None (TRef 1)
+    [x28; x61; x3a; x31; x29] = DOk (VRec [VRec [] [None; Some (VInt 1)]] [Some (VInt 7)])
+  /\ decode_ror2 env_incdef v2_wildcard ps_empty 0 prs0 (unescape false) v2_empty_string v2_list_prefix false 30 None (TRef 0)
+    [x28; x61; x3a; x31; x29] = DOk (VRec [] [Some (VInt 42); Some (VInt 1)]).
+Proof. split; vm_compute; reflexivity. Qed.
